@@ -229,6 +229,8 @@ class CFG:
 
     def _index_exprs(self):
         for n in self.nodes:
+            if n.ast is not None:
+                self._owner.setdefault(id(n.ast), n.id)  # the compound statement itself maps to its head node
             for e in n.exprs():
                 for sub in _walk_no_defs(e):
                     self._owner.setdefault(id(sub), n.id)
